@@ -408,11 +408,88 @@ def fam_cli(tier):
         yield {'w': 'cli', 'argvs': batch[i:i + 40], 'variants': BOTH if (i // 40) % 4 == 0 else SAN}
 
 
+def flux_structure_image(case):
+    """a small flux image whose track 1 has one structurally odd sector (all CRCs valid)"""
+    cont, spt = case['container'], case['spt']
+    enc = 'FM' if cont == 'hfe-fm' else 'MFM'
+    s0, _, _ = images.small_surface('acorn', 2, spt, total=2 * spt)
+    tracks = []
+    for t in range(2):
+        secs = []
+        for r in range(spt):
+            data = s0[(t * spt + r) * 256:(t * spt + r + 1) * 256]
+            sec = [t, 0, r, data]
+            if t == case['track'] and r == case['pos']:
+                k = case['oddity']
+                if k.startswith('size') and k[4:].isdigit():
+                    sc = int(k[4:])
+                    sec = [t, 0, r, (data * 4)[:128 << sc], sc]
+                elif k == 'cyl':
+                    sec[0] = t + 1
+                elif k == 'head':
+                    sec[1] = 1
+                elif k == 'rec-dup':
+                    sec[2] = (r + 1) % spt
+                elif k == 'rec-gap':
+                    sec[2] = r + 40
+                elif k == 'rec-255':
+                    sec[2] = 255
+                elif k == 'sizecode-9':
+                    sec = [t, 0, r, data, 9]
+            secs.append(tuple(sec))
+        if enc == 'FM':
+            bits, _ = flux.fm_track(secs)
+            tracks.append(flux.pack_lsb_first(flux.fm_to_hfe_cells(bits)))
+        else:
+            bits, _ = flux.mfm_track(secs)
+            tracks.append(flux.pack_lsb_first(bits) if cont.startswith('hfe') else flux.pack_msb_first(bits))
+    if cont.startswith('hfe'):
+        return 'img.hfe', flux.hfe_image([tracks], enc, 1)
+    return 'img.mfm', flux.hxcmfm_image([tracks])
+
+
+def w_fluxstruct(case):
+    res = mkres()
+    try:
+        d = run.fresh_dir('c07')
+        os.makedirs(os.path.join(d, 'out'))
+        fname, data = flux_structure_image(case)
+        if case.get('gz'):
+            data = images.gz(data)
+            fname += '.gz'
+        dfsrun.write(d, fname, data)
+        spt = case['spt']
+        cmds = [['cat'], ['dump-sector', '0', str(case['track']), str(case['pos'])], ['type', '--binary', 'HELLO'], ['extract-unused', 'out'],
+                ['dump-sector', '0', '1', str(spt - 1)], ['sector-map']]
+        for variant in ('san', 'plain'):
+            run_file(res, variant, d, fname, cmds, 'C07:flux-structure:%s:%s' % (case['container'], case['oddity']),
+                     'track %d sector %d %s' % (case['track'], case['pos'], case['oddity']), rss=(variant == 'plain'))
+        res['nt'].append((case['container'], case['oddity'], case['track'], case['pos'], case.get('gz')))
+        if res['viol']:
+            res['case'] = case
+    except Exception:
+        import traceback
+        res['viol'].append(('HARNESS', traceback.format_exc()))
+        res['case'] = case
+    return res
+
+
+def fam_fluxstruct(tier):
+    """flux images (HFE FM/MFM, HxC MFM) in which one sector, at every position of a track, is structurally odd but CRC-valid: size code 0/2/3 (128/512/1024 bytes), impossible size code, wrong cylinder or head in its ID, duplicate / far / 255 record number"""
+    for cont, spt in (('hfe-fm', 10), ('hfe-mfm', 18), ('mfm', 18)):
+        for odd in ('size0', 'size2', 'size3', 'sizecode-9', 'cyl', 'head', 'rec-dup', 'rec-gap', 'rec-255'):
+            for track in (0, 1):
+                positions = range(spt) if tier == 'thorough' or odd in ('size0', 'size2', 'size3') else (0, 1, spt // 2, spt - 1)
+                for pos in positions:
+                    yield {'w': 'fluxstruct', 'container': cont, 'spt': spt, 'oddity': odd, 'track': track, 'pos': pos}
+        yield {'w': 'fluxstruct', 'container': cont, 'spt': spt, 'oddity': 'size3', 'track': 1, 'pos': 3, 'gz': True}
+
+
 def worker(case):
-    return {'file': w_file, 'cli': w_cli}[case['w']](case)
+    return {'file': w_file, 'cli': w_cli, 'fluxstruct': w_fluxstruct}[case['w']](case)
 
 
-FAMILIES = [('X-cross-extension', fam_cross), ('C-command-lines', fam_cli), ('S-short-files', fam_short),
+FAMILIES = [('F-flux-structure', fam_fluxstruct), ('X-cross-extension', fam_cross), ('C-command-lines', fam_cli), ('S-short-files', fam_short),
             ('T-truncation', fam_trunc), ('B-structural-bytes', fam_poke)]
 
 
